@@ -110,8 +110,8 @@ Theorem C06_flow_KEKIdentifier_unpack : forall fuel cls view,
 Proof. exact flow_KEKIdentifier_unpack. Qed.
 Print Assumptions C06_flow_KEKIdentifier_unpack.
 Theorem C06_flow_RecipientInfo_unpack : forall fuel cls view,
-  value_of (run_mut MW fuel k_flow_RecipientInfo_unpack [cls; VO (OReader view)])
-  = (let* (k, _) := RecipientInfo_unpack view in Ok (VO (OKri k))).
+  run_mut MW fuel k_flow_RecipientInfo_unpack [cls; VO (OReader view)]
+  = (let* (k, rest) := RecipientInfo_unpack view in Ok (VO (OKri k), [cls; VO (OReader rest)])).
 Proof. exact flow_RecipientInfo_unpack. Qed.
 Print Assumptions C06_flow_RecipientInfo_unpack.
 Theorem C06_flow_EncryptedContentInfo_unpack : forall fuel cls view,
@@ -196,3 +196,86 @@ Theorem C06_flow_DPAPINGBlob_pack : forall fuel b (bie : bool),
   = (let* x := blob_pack b bie in Ok (VB x, [VO (OBlob b); vb bie])).
 Proof. exact flow_DPAPINGBlob_pack. Qed.
 Print Assumptions C06_flow_DPAPINGBlob_pack.
+
+(* what callers of X.unpack(reader) continue with: the world's entry is the model's (value, reader afterwards) *)
+Theorem C06_flow_call_AlgorithmIdentifier_unpack : forall view,
+  cms_call_mut "AlgorithmIdentifier.unpack"%string [VO (OReader view)]
+  = Some (let* (a, rest) := AlgorithmIdentifier_unpack view in Ok (VO (OAlg a), [VO (OReader rest)])).
+Proof. exact call_mut_AlgorithmIdentifier_unpack. Qed.
+Print Assumptions C06_flow_call_AlgorithmIdentifier_unpack.
+Theorem C06_flow_call_OtherKeyAttribute_unpack : forall view h,
+  cms_call_mut "OtherKeyAttribute.unpack/header"%string [VO (OReader view); vopt_hdr h]
+  = Some (let* (a, rest) := OtherKeyAttribute_unpack view h in Ok (VO (OOka a), [VO (OReader rest); vopt_hdr h])).
+Proof. exact call_mut_OtherKeyAttribute_unpack. Qed.
+Print Assumptions C06_flow_call_OtherKeyAttribute_unpack.
+Theorem C06_flow_call_KEKIdentifier_unpack : forall view,
+  cms_call_mut "KEKIdentifier.unpack"%string [VO (OReader view)]
+  = Some (let* (k, rest) := KEKIdentifier_unpack view in Ok (VO (OKekId k), [VO (OReader rest)])).
+Proof. exact call_mut_KEKIdentifier_unpack. Qed.
+Print Assumptions C06_flow_call_KEKIdentifier_unpack.
+Theorem C06_flow_call_KEKRecipientInfo_unpack : forall view h,
+  cms_call_mut "KEKRecipientInfo.unpack/header"%string [VO (OReader view); vopt_hdr h]
+  = Some (let* (k, rest) := KEKRecipientInfo_unpack view h in Ok (VO (OKri k), [VO (OReader rest); vopt_hdr h])).
+Proof. exact call_mut_KEKRecipientInfo_unpack. Qed.
+Print Assumptions C06_flow_call_KEKRecipientInfo_unpack.
+Theorem C06_flow_call_EncryptedContentInfo_unpack : forall view,
+  cms_call_mut "EncryptedContentInfo.unpack"%string [VO (OReader view)]
+  = Some (let* (e, rest) := EncryptedContentInfo_unpack view in Ok (VO (OEci e), [VO (OReader rest)])).
+Proof. exact call_mut_EncryptedContentInfo_unpack. Qed.
+Print Assumptions C06_flow_call_EncryptedContentInfo_unpack.
+
+(* on Python bytes the fuel hypothesis on the model is discharged (Proofs/C05Asn1.EnvelopedData_unpack_safe) *)
+From V Require Import Proofs.Flow_cms_c05.
+Theorem C06_flow_EnvelopedData_unpack_bytes : forall fuel cls data,
+  wfb data = true -> (List.length data < fuel)%nat ->
+  value_of (run_mut MW fuel k_flow_EnvelopedData_unpack [cls; VB data])
+  = (let* e := EnvelopedData_unpack data in Ok (VO (OEd e))).
+Proof. exact flow_EnvelopedData_unpack_bytes. Qed.
+Print Assumptions C06_flow_EnvelopedData_unpack_bytes.
+
+(* the hypotheses are satisfiable: the EnvelopedData of ex_blob (LAPS layout), one KEKRecipientInfo *)
+Definition ex_flow_ed : bytes :=
+  match (let* kid := KeyIdentifier_pack ex_kid in
+         let* pd := ProtectionDescriptor_pack (b_sid ex_blob) in
+         let* t := EnvelopedData_pack (blob_enveloped_data ex_blob kid pd false) in encode t) with
+  | Ok b => b | Raise _ => [] end.
+Example C06_flow_ex_EnvelopedData :
+  wfb ex_flow_ed = true /\ (300 <? List.length ex_flow_ed)%nat = true /\ (List.length ex_flow_ed <? 1000)%nat = true /\
+  match EnvelopedData_unpack ex_flow_ed with Ok e => List.length (ed_recipient_infos e) = 1%nat | Raise _ => False end.
+Proof. split; [|split; [|split]]; vm_compute; reflexivity. Qed.
+Example C06_flow_ex_hyps : (List.length ex_flow_ed < 1000)%nat /\ EnvelopedData_unpack ex_flow_ed <> Raise OutOfFuel.
+Proof.
+  destruct C06_flow_ex_EnvelopedData as (_ & _ & HL & HE). split.
+  - apply Nat.ltb_lt. exact HL.
+  - intro H. rewrite H in HE. exact HE.
+Qed.
+Example C06_flow_ex_tie :
+  value_of (run_mut MW 1000 k_flow_EnvelopedData_unpack [VN; VB ex_flow_ed])
+  = (let* e := EnvelopedData_unpack ex_flow_ed in Ok (VO (OEd e))).
+Proof. apply C06_flow_EnvelopedData_unpack; apply C06_flow_ex_hyps. Qed.
+
+(* ---- the writer of these ties (list of child trees, Flow/World_cms.v) and the writer the C07 ties of ASN1Writer's own methods
+   are about (accumulated octets, Flow/World_asn1.v): Proofs/Flow_cms_writer_bridge.v.  R w t ws: same tag, root iff root, and the
+   octets of w are encode_list ws.  Per method (bridge_write_*, bridge_push_*, bridge_exit, bridge_get_data_* in that file): same
+   error, or R again, or TIMING (the octet writer raises a pack_tlv error at once, the tree writer at get_data()). ---- *)
+From V Require Flow.World_asn1 Proofs.Flow_cms_writer_bridge.
+Theorem C06_flow_writer_replay : forall n w,
+  Flow_cms_writer_bridge.replay n w = (let* b := encode n in Ok (World_asn1.wr_extend w b)).
+Proof. exact Flow_cms_writer_bridge.replay_encode. Qed.
+Print Assumptions C06_flow_writer_replay.
+Theorem C06_flow_writer_pack_bridge : forall w t ws n, Flow_cms_writer_bridge.R w t ws ->
+  match Flow_cms_writer_bridge.replay n w with
+  | Ok w' => Flow_cms_writer_bridge.R w' t (ws ++ [n])
+  | Raise e => encode_list (ws ++ [n]) = Raise e
+  end.
+Proof. exact Flow_cms_writer_bridge.pack_bridge. Qed.
+Print Assumptions C06_flow_writer_pack_bridge.
+Theorem C06_flow_writer_root_bytes : forall n,
+  (let* w := Flow_cms_writer_bridge.replay n World_asn1.writer_root in World_asn1.writer_get_data w) = encode n.
+Proof. exact Flow_cms_writer_bridge.root_bytes_1. Qed.
+Print Assumptions C06_flow_writer_root_bytes.
+Theorem C06_flow_writer_get_data : forall w ws, Flow_cms_writer_bridge.R w None ws ->
+  World_cms.writer_meth "get_data" None ws [] = Some (Ok (VB (World_asn1.wr_data w), VO (World_cms.OWriter None ws))) /\
+  World_asn1.writer_meth "get_data" w [] = Some (Ok (VB (World_asn1.wr_data w), VO (World_asn1.OWriter w))).
+Proof. exact Flow_cms_writer_bridge.bridge_get_data_root. Qed.
+Print Assumptions C06_flow_writer_get_data.
